@@ -1,7 +1,7 @@
 #!/bin/sh
 # Offline setup: parse every specification module once (fails early on a broken spec).
 cd "$(dirname "$0")/../spec" || exit 1
-for f in MC_TimeText MC_BigInt MC_BER MC_Gen Trace_Codec MC_Helpers MC_Mod MC_Legal MC_Constraints MC_Pipeline MC_Runs MC_Tlv MC_Deep MC_Threads; do
+for f in MC_TimeText MC_BigInt MC_BER MC_Gen Trace_Codec MC_Helpers MC_OidApi MC_Mod MC_Legal MC_Constraints MC_Pipeline MC_Runs MC_Tlv MC_Deep MC_Threads; do
   tla-sany $f.tla >/tmp/verif-sany.$$ 2>&1 || { cat /tmp/verif-sany.$$; rm -f /tmp/verif-sany.$$; exit 1; }
 done
 rm -f /tmp/verif-sany.$$
